@@ -134,6 +134,10 @@ def apply_mask(
   elif types.is_array_like(masks) and types.is_array_like(items):
     if hasattr(masks, '__array__') and getattr(masks, 'dtype') == bool:
       if replace_false_with != DEFAULT_FILTER:
+        items = np.asarray(items)
+        # A mask over the leading axes keeps or replaces whole sub-arrays.
+        extra_dims = (1,) * (items.ndim - np.ndim(masks))
+        masks = np.reshape(masks, np.shape(masks) + extra_dims)
         return np.where(masks, items, replace_false_with)
       else:
         return np.asarray(items)[masks]
